@@ -309,7 +309,7 @@ Qed.
 Theorem marker_cut_junk ty junk St :
   forallb (fun b => negb (b =? HASH)) (ty ++ [COLON]) = true ->
   forallb (fun b => negb (b =? HASH)) St = true ->
-  contains (HASH :: ty ++ [COLON]) junk = false ->
+  (contains (HASH :: ty ++ [COLON]) junk = false \/ has_prefix (ty ++ [COLON]) St = true) ->
   marker_cut ty (junk ++ HASH :: St) = HASH :: St.
 Proof.
   intros Hty HS Hj. unfold marker_cut. rewrite marker_eq.
@@ -320,6 +320,7 @@ Proof.
     erewrite last_index_app_some by exact R. rewrite Nat.add_0_r. apply skipn_len_exact.
   - assert (R: last_index_of (HASH :: ty ++ [COLON]) (HASH :: St) = None).
     { cbn [last_index_of]. rewrite Htail, P. reflexivity. }
+    destruct Hj as [Hj|Hj]; [|cbn [has_prefix] in P; rewrite N.eqb_refl, Hj in P; discriminate].
     erewrite last_index_app_none by eassumption.
     assert (R1: last_index_of [Consts.recv_fallback_byte] (HASH :: St) = Some O).
     { change Consts.recv_fallback_byte with HASH. cbn [last_index_of].
